@@ -133,6 +133,10 @@ func (fr *oFrame) builtinCall(call *ast.CallExpr) (oval, bool) {
 			keys, vals := []oval{}, []oval{}
 			return oMap{typ: t, keys: &keys, vals: &vals}, true
 		}
+		if _, ok := t.Underlying().(*types.Chan); ok && fr.it.seqGo {
+			q, closed := []oval{}, false
+			return oChan{q: &q, closed: &closed, typ: t}, true
+		}
 		if _, ok := t.Underlying().(*types.Slice); !ok {
 			return oTop{"make of " + t.String()}, true
 		}
@@ -230,6 +234,15 @@ func (fr *oFrame) builtinCall(call *ast.CallExpr) (oval, bool) {
 			return fr.it.panicVal, true
 		}
 		return oNil{}, true
+	case "close":
+		if ch, ok := fr.eval(call.Args[0]).(oChan); ok && fr.it.seqGo {
+			if *ch.closed {
+				fr.abort("panic: close of closed channel at %s", fr.it.p.Position(call.Pos()))
+			}
+			*ch.closed = true
+			return oNil{}, true
+		}
+		return abortedTop("close of " + showVal(fr.eval(call.Args[0]))), true
 	case "copy":
 		d, ok1 := fr.eval(call.Args[0]).(oSlice)
 		sv := fr.eval(call.Args[1])
@@ -381,6 +394,11 @@ func (fr *oFrame) rangeStmt(s *ast.RangeStmt) oCtl {
 	case oNil:
 	case oInt:
 		n = int(x)
+	case oChan:
+		if !fr.it.seqGo {
+			return fr.abort("range over a channel at %s", fr.it.p.Position(s.X.Pos()))
+		}
+		return fr.rangeChan(s, x, saved, myLabel)
 	case oMap:
 		// in insertion order (Go's order is unspecified; code under analysis must not depend on it).
 		// Keys and values are snapshotted: entries added during the loop are not visited.
